@@ -144,6 +144,54 @@ def check_equation(name, cls, mon, viol, rng):
         if r:
             bad(r[0], 'array name misspelt as %r: %s' % (wrong, r[1]),
                 dict(equation=name, misspelt=wrong))
+    nf += check_self_source(name, cls, mon, bad, rng, d, s, imp, nosrc)
+    return nf
+
+
+def check_self_source(name, cls, mon, bad, rng, d, s, imp, nosrc):
+    """The destination is also one of the sources (fluid -> fluid, the most
+    common arrangement), in either position of the source list: what the
+    equation reads from it *as a source* must be checked too."""
+    if nosrc:
+        return 0
+    cname = cls.__name__
+    nf = 0
+    for srcs in (('dest', 'src'), ('src', 'dest'), ('dest',)):
+        only_src = [n for n in sorted(s | imp) if n not in d and
+                    n not in BASE]
+        if not only_src:
+            continue
+
+        def arrays(skip=None):
+            out = [make_array('dest', (d | s | imp) - (
+                {skip} if skip else set()))]
+            if 'src' in srcs:
+                out.append(make_array('src', s | imp))
+            return out
+        stage, exc = stages(arrays(), [ec.instantiate(
+            cls, dest='dest', sources=srcs)])
+        if exc is not None:
+            continue
+        # one fault per arrangement (all of them in the last arrangement)
+        picks = only_src if srcs == ('dest',) else [
+            only_src[int(rng.integers(len(only_src)))]]
+        for n in picks:
+            mode = str(rng.choice(['flat', 'group', 'subgroup']))
+            stage, exc = stages(arrays(skip=n), wrap([ec.instantiate(
+                cls, dest='dest', sources=srcs)], mode))
+            nf += 1
+            mon['faults_self-source'] = mon.get('faults_self-source', 0) + 1
+            r = judge(stage, exc, cname, n, 'self-source')
+            if r:
+                bad(r[0], 'property %r (read through s_%s / a pair symbol '
+                    'only) removed from array %r which is destination and '
+                    'source, sources=%r (%s): %s' % (n, n, 'dest', srcs,
+                                                    mode, r[1]),
+                    dict(equation=name, array='dest', name=n,
+                         kind='self-source', sources=list(srcs)))
+            else:
+                mon['rejected_at_' + stage] = mon.get(
+                    'rejected_at_' + stage, 0) + 1
     return nf
 
 
@@ -294,11 +342,21 @@ def run(tier):
     if m.counters.get('classes', 0) < 300:
         v.inconclusive_because('only %d classes enumerated' %
                                m.counters.get('classes', 0))
+    for kind, least in (('faults_explicit-dest', 200),
+                        ('faults_explicit-source', 200),
+                        ('faults_pair-symbol', 100),
+                        ('faults_self-source', 100),
+                        ('faults_stepper', 50), ('faults_misspelt', 100)):
+        if m.counters.get(kind, 0) < least:
+            v.inconclusive_because('%s = %d (< %d)' % (
+                kind, m.counters.get(kind, 0), least))
     nb = m.counters.get('baseline_not_buildable', 0)
     return harness.finish(
         PROP, tier, 'fault_enumeration', m, v, T,
         rule='fault = (shipped or generated equation / stepper class, needed '
-             'name, array it is removed from) or a misspelt dest / source / '
+             'name, array it is removed from - the destination, one of two '
+             'separate sources, or the destination used as its own source in '
+             'either position of the source list) or a misspelt dest / source / '
              'stepper array name; needed names are the d_*/s_* arguments of '
              'the hook methods and u,v,w / rho implied by VIJ / RHOIJ / '
              'RHOIJ1; every such fault of every class whose complete problem '
